@@ -144,6 +144,11 @@ type Config struct {
 	NeedsSource map[int64]bool
 	// CompareFail: Compare reports a mismatch for (process, proposed value).
 	CompareFail func(proc, value int64) bool
+	// SrcPreloaded: the process's local compare source is already waiting in its (buffered) source
+	// channel when the instance starts — production's common case: the local attestation data was
+	// fetched before the leader's proposal arrives. Compare then returns the value and its verdict
+	// back to back without blocking.
+	SrcPreloaded map[int64]int64
 }
 
 // Leader is the simulator's leader function (mirrors production: (slot+type+round) mod n).
@@ -159,9 +164,9 @@ type simTimer struct {
 	round    int64
 }
 
-func (t *simTimer) Chan() <-chan time.Time    { return t.ch }
-func (t *simTimer) Reset(time.Duration) bool  { panic("simTimer.Reset not supported") }
-func (t *simTimer) Stop() bool                { was := !t.stopped && !t.fired; t.stopped = true; return was }
+func (t *simTimer) Chan() <-chan time.Time   { return t.ch }
+func (t *simTimer) Reset(time.Duration) bool { panic("simTimer.Reset not supported") }
+func (t *simTimer) Stop() bool               { was := !t.stopped && !t.fired; t.stopped = true; return was }
 
 // procClock is the clockwork.Clock given to a process's round timer.
 type procClock struct {
@@ -191,16 +196,16 @@ type Proc struct {
 	blocked  chan struct{} // Compare signals that it blocks waiting for the local source
 	cancel   context.CancelFunc
 
-	Started        bool
-	Exited         bool
-	ExitErr        error
-	Panic          any
-	InputGiven     bool
-	SrcGiven       bool
-	CompareBlocked bool
-	Crashed        bool
-	Round          int64
-	Decisions      []*Decision
+	Started         bool
+	Exited          bool
+	ExitErr         error
+	Panic           any
+	InputGiven      bool
+	SrcGiven        bool
+	CompareBlocked  bool
+	Crashed         bool
+	Round           int64
+	Decisions       []*Decision
 	SentAfterDecide []*Msg
 
 	timer         *simTimer
@@ -240,7 +245,9 @@ type Sim struct {
 	Steps    int
 	curProc  int64
 	RuleSeen map[qbft.UponRule]int
-	MaxRound int64
+	// Compares counts Compare invocations, CompareWaits those that had to wait for the local source.
+	Compares, CompareWaits int
+	MaxRound               int64
 
 	ctx    context.Context
 	cancel context.CancelFunc
@@ -257,6 +264,11 @@ func New(cfg Config) *Sim {
 		p := &Proc{
 			ID: id, recv: make(chan QMsg), input: make(chan int64), inputSrc: make(chan int64),
 			done: make(chan struct{}), blocked: make(chan struct{}), Round: 1,
+		}
+		if v, ok := cfg.SrcPreloaded[id]; ok {
+			p.inputSrc = make(chan int64, 1)
+			p.inputSrc <- v
+			p.SrcGiven = true
 		}
 		clk := procClock{s: s, p: p}
 		switch cfg.TimerKind {
@@ -320,7 +332,20 @@ func (s *Sim) definition(p *Proc) qbft.Definition[int64, int64, int64] {
 			return ch, stop
 		},
 		Compare: func(ctx context.Context, qcommit QMsg, srcCh <-chan int64, src int64, retErr chan error, retVal chan int64) {
+			s.mu.Lock()
+			s.Compares++
+			s.mu.Unlock()
 			if src == 0 && s.Cfg.NeedsSource[p.ID] {
+				select {
+				case src = <-srcCh: // already available: value and verdict go back to back
+					retVal <- src
+				default:
+				}
+			}
+			if src == 0 && s.Cfg.NeedsSource[p.ID] {
+				s.mu.Lock()
+				s.CompareWaits++
+				s.mu.Unlock()
 				select {
 				case p.blocked <- struct{}{}:
 				case <-ctx.Done():
